@@ -225,7 +225,7 @@ func floatSpellings(r *runner.Rng, f float64) []string {
 	return out
 }
 
-var c12Tokens = []string{"a", "foo", "Bar_1", "$x", "héllo", "世界", "x1", "1", "42", "3.14", "0x1F", "1e3", ".5", "10_000",
+var c12Tokens = []string{"index", "in_var", "inStock", "input", "notes", "a", "foo", "Bar_1", "$x", "héllo", "世界", "x1", "1", "42", "3.14", "0x1F", "1e3", ".5", "10_000",
 	`"s"`, `'t'`, `"世 界"`, `"a\tb"`, `'q\'q'`,
 	"+", "-", "*", "/", "%", "**", "==", "!=", "<", "<=", ">", ">=", "&&", "||", "!", "and", "or", "in", "matches", "contains", "startsWith", "endsWith", "..", "?", ":", ",", "#", ".", "?.",
 	"(", ")", "[", "]", "{", "}", "not", "true", "nil", "len", "not in"}
